@@ -58,6 +58,12 @@ void COTPdoInit(CO_TPDO *pdo, CO_NODE *node)
     
     COTPdoMapClear(node->TMap);
     for (num = 0; num < CO_TPDO_N; num++) {
+        if (pdo[num].EvTmr >= 0) {
+            (void)COTmrDelete(&node->Tmr, pdo[num].EvTmr);
+        }
+        if (pdo[num].InTmr >= 0) {
+            (void)COTmrDelete(&node->Tmr, pdo[num].InTmr);
+        }
         pdo[num].Node       = node;
         pdo[num].EvTmr      = -1;
         pdo[num].InTmr      = -1;
